@@ -53,6 +53,34 @@ Theorem C19_code_date_parse : forall md utc local text, sp_modelled md (cli_cfg 
 Proof. exact gen11_date_parse. Qed.
 Print Assumptions C19_code_date_parse.
 
+(* date_parse with --parse-format: the text is read by the library's strptime with that format alone and the point
+   is converted to UTC exactly in utc mode (every format whose directives are in the strftime table; "ref" and
+   "now" are the keywords of the other branch) *)
+Theorem C19_code_date_parse_custom : forall md utc local text fmt,
+  fmt_supported fmt = true -> String.eqb text "ref" = false -> String.eqb text "now" = false ->
+  py_date_parse (mops md utc local) (self_pf utc fmt) (VStr text) =
+  match m_tp_strptime md utc local text fmt with
+  | Ret p => if utc then match m_to_utc md p with Ret q => Ret (VTuple [VPoint q; VStr fmt]) | Raise e => Raise e end
+             else Ret (VTuple [VPoint p; VStr fmt])
+  | Raise e => Raise e
+  end.
+Proof. exact gen11_date_parse_custom. Qed.
+Print Assumptions C19_code_date_parse_custom.
+
+(* closed instances through process_time_point_str (expected values: the real command line, e.g.
+   `isodatetime --utc --parse-format=%Y%m%dT%H%M%z 20200101T0000+0100 --offset=PT1H`) *)
+Example C19_code_ex_custom :
+  [cres_of (py_process_time_point_str (mops G true (0, 0)) (self_pf true "%Y%m%dT%H%M%z")
+              (VStr "20200101T0000+0100") VNone VNone);
+   cres_of (py_process_time_point_str (mops G true (0, 0)) (self_pf true "%Y%m%dT%H%M%z")
+              (VStr "20200101T0000+0100") (VList [VStr "PT1H"]) VNone);
+   cres_of (py_process_time_point_str (mops G false (0, 0)) (self_pf false "%Y%m%dT%H%M%z")
+              (VStr "20200101T0000+0100") (VList [VStr "PT1H"]) VNone);
+   cres_of (py_process_time_point_str (mops G true (0, 0)) (self_pf true "%d/%m/%Y_%H")
+              (VStr "29/02/2020_23") (VList [VStr "P1D"]) VNone)]
+  = [COut "20191231T2300+0000"; COut "20200101T0000+0000"; COut "20200101T0100+0100"; COut "01/03/2020_23"].
+Proof. vm_compute. reflexivity. Qed.
+
 (* process_time_point_str = cli_shift *)
 Theorem C19_code_process_time_point_str : forall md utc local text offs pf,
   sp_modelled md (cli_cfg utc local) text -> pf <> Some "" ->
